@@ -111,6 +111,8 @@ Definition ev_good (ev : state -> term -> res * state) : Prop :=
 
 Section StepGood.
   Variable fm : bool.
+  Variable tx : bool.
+  Variable pf : Z -> list term -> res.
   Variable ev : state -> term -> res * state.
   Hypothesis Hev : ev_good ev.
 
@@ -138,8 +140,22 @@ Section StepGood.
       + inversion H; subst. exact E1.
   Qed.
 
+  Lemma body_good c2 st1 f1 rr st2 :
+    match f1 with
+    | TPy id params =>
+        (match lookup_all params (frames (push c2 st1)) with
+         | Some vals => pf id vals
+         | None => Err EUndef
+         end, push c2 st1)
+    | _ => callv ev (push c2 st1) f1
+    end = (rr, st2) -> good (push c2 st1) st2.
+  Proof.
+    destruct f1; intros H; try (apply callv_good in H; exact H).
+    inversion H; subst. apply good_refl.
+  Qed.
+
   Lemma eval_fn_good st x xa xargs xarity r st' :
-    eval_fn true fm ev st x xa xargs xarity = (r, st') -> good st st'.
+    eval_fn true fm pf ev st x xa xargs xarity = (r, st') -> good st st'.
   Proof.
     unfold eval_fn. intros H.
     destruct (resolve3 (frames st) xa [xargs] xarity) as [[[f f_args] f_arity]|];
@@ -152,7 +168,8 @@ Section StepGood.
       destruct (eval_args ev st (firstn 3 args)) as [[o k] st1] eqn:EA. apply eval_args_good in EA.
       destruct o as [vs|]; [|inversion H; subst; exact EA].
       destruct (bind_frame f vs) as [c2 f1].
-      destruct (callv ev (push c2 st1) f1) as [rr st2] eqn:EB. apply callv_good in EB.
+      match type of H with (let (r0, st2) := ?X in _) = _ => destruct X as [rr st2] eqn:EB end.
+      apply body_good in EB.
       apply good_push_pop in EB.
       destruct rr; inversion H; subst; eapply good_trans; eauto.
     - (* MArr *)
@@ -161,12 +178,13 @@ Section StepGood.
       destruct (eval_args ev st (firstn 3 args)) as [[o k] st1] eqn:EA. apply eval_args_good in EA.
       destruct o as [vs|]; [|inversion H; subst; exact EA].
       destruct (bind_frame f vs) as [c2 f1].
-      destruct (callv ev (push c2 st1) f1) as [rr st2] eqn:EB. apply callv_good in EB.
+      match type of H with (let (r0, st2) := ?X in _) = _ => destruct X as [rr st2] eqn:EB end.
+      apply body_good in EB.
       apply good_push_pop in EB.
       destruct rr; inversion H; subst; eapply good_trans; eauto.
   Qed.
 
-  Lemma step_good : ev_good (eval_step true fm ev).
+  Lemma step_good : ev_good (eval_step true fm tx pf ev).
   Proof.
     intros st t r st' H. destruct t; cbn [eval_step] in H;
       try (inversion H; subst; apply good_refl).
@@ -187,7 +205,7 @@ Section StepGood.
                       | Ok va =>
                           match o with
                           | At => match va with
-                                  | TSym _ | TFn _ _ _ _ => ev st2 (TFn true va (Some (at_args vb)) 1)
+                                  | TSym _ | TFn _ _ _ _ | TPy _ _ => ev st2 (TFn true va (Some (at_args vb)) 1)
                                   | _ => (apply2 o va vb, st2)
                                   end
                           | _ => (apply2 o va vb, st2)
@@ -214,7 +232,7 @@ Section StepGood.
     - (* TCond *)
       destruct (callv ev st t1) as [rc st1] eqn:E1. apply callv_good in E1.
       destruct rc as [q|k]; [|inversion H; subst; exact E1].
-      destruct (truthy q); apply callv_good in H; eapply good_trans; eauto.
+      destruct (truthy tx q); apply callv_good in H; eapply good_trans; eauto.
     - (* TSeq *)
       destruct l as [|y l]; [inversion H; subst; apply good_refl|].
       destruct (callv ev st y) as [ry st1] eqn:E1. apply callv_good in E1.
@@ -223,7 +241,7 @@ Section StepGood.
   Qed.
 End StepGood.
 
-Lemma eval_good fm fuel : ev_good (eval true fm fuel).
+Lemma eval_good fm tx pf fuel : ev_good (eval true fm tx pf fuel).
 Proof.
   induction fuel as [|f IH]; intros st t r st' H; cbn [eval] in H.
   - inversion H; subst. apply good_refl.
@@ -246,8 +264,8 @@ Proof.
     destruct (Nat.eqb_spec j (length r)); [contradiction|]. exact H.
 Qed.
 
-Lemma frames_restored fm fuel st e r st' :
-  eval true fm fuel st e = (r, st') ->
+Lemma frames_restored fm tx pf fuel st e r st' :
+  eval true fm tx pf fuel st e = (r, st') ->
   length (frames st') = length (frames st) /\
   exists w, log st' = w ++ log st /\
     (forall v j, ~ In (v, j) w -> lvl (frames st') j v = lvl (frames st) j v) /\
@@ -259,11 +277,11 @@ Proof.
 Qed.
 
 (* nothing was written at all: the stack is observably the one before *)
-Lemma frames_untouched fm fuel st e r st' :
-  eval true fm fuel st e = (r, st') -> log st' = log st ->
+Lemma frames_untouched fm tx pf fuel st e r st' :
+  eval true fm tx pf fuel st e = (r, st') -> log st' = log st ->
   forall v, ctx_lookup v (frames st') = ctx_lookup v (frames st).
 Proof.
-  intros H HL v. destruct (frames_restored _ _ _ _ _ _ H) as (_ & w & L & _ & U).
+  intros H HL v. destruct (frames_restored _ _ _ _ _ _ _ _ H) as (_ & w & L & _ & U).
   rewrite HL in L. assert (w = []).
   { destruct w; [reflexivity|]. apply (f_equal (@length _)) in L. rewrite app_length in L. cbn in L. lia. }
   subst w. apply U. intros j [].
@@ -357,37 +375,39 @@ Qed.
 (* ------------------------------------------------------------------ *)
 (* T3.cond *)
 
-Lemma cond_unfold fin fm fuel st c a b :
-  eval fin fm (S fuel) st (TCond c a b) =
-  let (rc, st1) := call fin fm fuel st c in
+Lemma cond_unfold fin fm tx pf fuel st c a b :
+  eval fin fm tx pf (S fuel) st (TCond c a b) =
+  let (rc, st1) := call fin fm tx pf fuel st c in
   match rc with
   | Err k => (Err k, st1)
-  | Ok q => if truthy q then call fin fm fuel st1 a else call fin fm fuel st1 b
+  | Ok q => if truthy tx q then call fin fm tx pf fuel st1 a else call fin fm tx pf fuel st1 b
   end.
 Proof. reflexivity. Qed.
 
-Lemma cond_selects fin fm fuel st c a b q st1 :
-  call fin fm fuel st c = (Ok q, st1) ->
-  (truthy q = true -> forall b', eval fin fm (S fuel) st (TCond c a b') = call fin fm fuel st1 a) /\
-  (truthy q = false -> forall a', eval fin fm (S fuel) st (TCond c a' b) = call fin fm fuel st1 b).
+Lemma cond_selects fin fm tx pf fuel st c a b q st1 :
+  call fin fm tx pf fuel st c = (Ok q, st1) ->
+  (truthy tx q = true -> forall b', eval fin fm tx pf (S fuel) st (TCond c a b') = call fin fm tx pf fuel st1 a) /\
+  (truthy tx q = false -> forall a', eval fin fm tx pf (S fuel) st (TCond c a' b) = call fin fm tx pf fuel st1 b).
 Proof.
   intros H. split; intros T x; rewrite cond_unfold, H, T; reflexivity.
 Qed.
 
-Lemma cond_error fin fm fuel st c a b k st1 :
-  call fin fm fuel st c = (Err k, st1) -> eval fin fm (S fuel) st (TCond c a b) = (Err k, st1).
+Lemma cond_error fin fm tx pf fuel st c a b k st1 :
+  call fin fm tx pf fuel st c = (Err k, st1) -> eval fin fm tx pf (S fuel) st (TCond c a b) = (Err k, st1).
 Proof. intros H. rewrite cond_unfold, H. reflexivity. Qed.
 
 Lemma truthy_false_iff q :
-  truthy q = false <-> (q = TInt 0 \/ q = TArr [] \/ q = TStr [] \/ q = TSeq []).
+  truthy true q = false <->
+  (q = TInt 0 \/ (exists b, q = TReal b /\ real_is_zero b = true) \/ q = TArr [] \/ q = TStr [] \/ q = TSeq []).
 Proof.
   split.
-  - destruct q as [z|s|c|l| |s|o a|o a b|ic a ar n|c a b|l]; cbn [truthy]; try discriminate.
+  - destruct q as [z|b|s|c|l| |s|o a|o a b|ic a ar n|c a b|l|id ps]; cbn [truthy]; try discriminate.
     + intros H. apply negb_false_iff, Z.eqb_eq in H. subst. auto.
-    + destruct s; [auto|discriminate].
-    + destruct l; [auto|discriminate].
+    + intros H. apply negb_false_iff in H. right; left. exists b. auto.
+    + destruct s; [auto 6|discriminate].
     + destruct l; [auto 6|discriminate].
-  - intros [->|[->|[->| ->]]]; reflexivity.
+    + destruct l; [auto 8|discriminate].
+  - intros [->|[(b & -> & Hb)|[->|[->| ->]]]]; try reflexivity. cbn [truthy]. rewrite Hb. reflexivity.
 Qed.
 
 (* ------------------------------------------------------------------ *)
@@ -397,12 +417,12 @@ Definition op_rooted (b : term) : bool :=
   match b with TOp1 _ _ | TOp2 _ _ _ | TCond _ _ _ => true | _ => false end.
 
 (* what a call of the body b with evaluated arguments comes to *)
-Definition enter (fin fm : bool) (fuel : nat) (st : state) (b : term) (args : list term) : res * state :=
-  let '(o, k, st1) := eval_args (eval fin fm fuel) st (firstn 3 args) in
+Definition enter (fin fm tx : bool) (pf : Z -> list term -> res) (fuel : nat) (st : state) (b : term) (args : list term) : res * state :=
+  let '(o, k, st1) := eval_args (eval fin fm tx pf fuel) st (firstn 3 args) in
   match o with
   | None => (Err k, st1)
   | Some vs =>
-      let (r, st2) := eval fin fm fuel (push (frame_set nDotF b (combine [nX; nY; nZ] vs)) st1) b in
+      let (r, st2) := eval fin fm tx pf fuel (push (frame_set nDotF b (combine [nX; nY; nZ] vs)) st1) b in
       match r with
       | Ok _ => (r, pop st2)
       | Err _ => if fin then (r, pop st2) else (r, st2)
@@ -418,41 +438,40 @@ Proof. destruct b; try discriminate; reflexivity. Qed.
 Lemma local_decl_op_rooted b : op_rooted b = true -> local_decl b = None.
 Proof. destruct b; try discriminate; reflexivity. Qed.
 
-Lemma enter_body fin fm fuel st x b fargs n args :
+Lemma enter_body fin fm tx pf fuel st x b fargs n args :
   op_rooted b = true -> existsb is_none args = false -> (n <= length args)%nat ->
   resolve3 (frames st) (match x with TFn _ a _ _ => a | _ => x end) [Some args] fargs = Some (b, [Some args], n) ->
   forall c ar, x = TFn c (match x with TFn _ a _ _ => a | _ => x end) ar fargs ->
-  eval_fn fin fm (eval fin fm fuel) st x (match x with TFn _ a _ _ => a | _ => x end) (Some args) fargs
-  = enter fin fm fuel st b args.
+  eval_fn fin fm pf (eval fin fm tx pf fuel) st x (match x with TFn _ a _ _ => a | _ => x end) (Some args) fargs
+  = enter fin fm tx pf fuel st b args.
 Proof.
   intros Hb Hh Hn Hr c ar _. unfold eval_fn, enter. rewrite Hr. cbn [rev app].
   unfold merge_projections. cbn [merged_info]. rewrite Hh.
   assert ((length args <? n)%nat = false) as -> by (apply Nat.ltb_ge; exact Hn). cbn [orb].
-  destruct (eval_args (eval fin fm fuel) st (firstn 3 args)) as [[o k] st1].
+  destruct (eval_args (eval fin fm tx pf fuel) st (firstn 3 args)) as [[o k] st1].
   destruct o as [vs|]; [|reflexivity].
-  unfold bind_frame. rewrite (local_decl_op_rooted _ Hb). unfold callv. rewrite (as_call_op_rooted _ Hb).
-  reflexivity.
+  unfold bind_frame, callv. destruct b; try discriminate Hb; reflexivity.
 Qed.
 
 (* direct call {b}(args) *)
-Lemma direct_call fin fm fuel st b args n :
+Lemma direct_call fin fm tx pf fuel st b args n :
   op_rooted b = true -> existsb is_none args = false -> (n <= length args)%nat ->
-  eval fin fm (S fuel) st (TFn true b (Some args) n) = enter fin fm fuel st b args.
+  eval fin fm tx pf (S fuel) st (TFn true b (Some args) n) = enter fin fm tx pf fuel st b args.
 Proof.
   intros Hb Hh Hn. cbn [eval eval_step].
-  apply (enter_body fin fm fuel st (TFn true b (Some args) n) b n n args Hb Hh Hn) with (c := true) (ar := Some args);
+  apply (enter_body fin fm tx pf fuel st (TFn true b (Some args) n) b n n args Hb Hh Hn) with (c := true) (ar := Some args);
     [|reflexivity].
   cbn beta iota. unfold resolve3. rewrite !(resolve_fn_op_rooted _ _ _ _ Hb). reflexivity.
 Qed.
 
 (* call through a variable g(args), g bound to the function {b} of arity n *)
-Lemma var_call fin fm fuel st g c0 b args n n' :
+Lemma var_call fin fm tx pf fuel st g c0 b args n n' :
   op_rooted b = true -> existsb is_none args = false -> (n <= length args)%nat -> (0 < n')%nat ->
   is_reserved g = false -> ctx_lookup g (frames st) = Some (TFn c0 b None n) ->
-  eval fin fm (S fuel) st (TFn true (TSym g) (Some args) n') = enter fin fm fuel st b args.
+  eval fin fm tx pf (S fuel) st (TFn true (TSym g) (Some args) n') = enter fin fm tx pf fuel st b args.
 Proof.
   intros Hb Hh Hn Hp Hg Hl. cbn [eval eval_step].
-  apply (enter_body fin fm fuel st (TFn true (TSym g) (Some args) n') b n' n args Hb Hh Hn) with (c := true) (ar := Some args);
+  apply (enter_body fin fm tx pf fuel st (TFn true (TSym g) (Some args) n') b n' n args Hb Hh Hn) with (c := true) (ar := Some args);
     [|reflexivity].
   cbn beta iota. unfold resolve3. unfold resolve_fn at 1. rewrite Hl. cbn [is_kgfn orb].
   assert ((0 <? n')%nat = true) as -> by (apply Nat.ltb_lt; exact Hp).
@@ -460,13 +479,13 @@ Proof.
 Qed.
 
 (* recursive call .f(args) from inside the body b (whose frame binds .f to b) *)
-Lemma dotf_call fin fm fuel st b args n' :
+Lemma dotf_call fin fm tx pf fuel st b args n' :
   op_rooted b = true -> existsb is_none args = false -> (n' <= length args)%nat ->
   ctx_lookup nDotF (frames st) = Some b ->
-  eval fin fm (S fuel) st (TFn true (TSym nDotF) (Some args) n') = enter fin fm fuel st b args.
+  eval fin fm tx pf (S fuel) st (TFn true (TSym nDotF) (Some args) n') = enter fin fm tx pf fuel st b args.
 Proof.
   intros Hb Hh Hn Hl. cbn [eval eval_step].
-  apply (enter_body fin fm fuel st (TFn true (TSym nDotF) (Some args) n') b n' n' args Hb Hh Hn) with (c := true) (ar := Some args);
+  apply (enter_body fin fm tx pf fuel st (TFn true (TSym nDotF) (Some args) n') b n' n' args Hb Hh Hn) with (c := true) (ar := Some args);
     [|reflexivity].
   cbn beta iota. unfold resolve3. unfold resolve_fn at 1. rewrite Hl.
   replace (is_kgfn b || negb (is_reserved nDotF)) with true by (rewrite orb_true_r; reflexivity).
@@ -494,14 +513,14 @@ Proof.
   destruct (s =? n)%Z; [inversion H; left; reflexivity|right; eapply IH; eauto].
 Qed.
 
-Lemma self_eval_eval fin fm fuel st v : self_eval v = true -> eval fin fm (S fuel) st v = (Ok v, st).
+Lemma self_eval_eval fin fm tx pf fuel st v : self_eval v = true -> eval fin fm tx pf (S fuel) st v = (Ok v, st).
 Proof. destruct v; try discriminate; reflexivity. Qed.
 
 Lemma self_eval_as_call v : self_eval v = true -> as_call v = v.
 Proof. destruct v; try discriminate; reflexivity. Qed.
 
 Section PureSubst.
-  Variables (fin fm : bool) (vs : list term) (b : term) (fr : list frame) (lg : list (name * nat)).
+  Variables (fin fm tx : bool) (pf : Z -> list term -> res) (vs : list term) (b : term) (fr : list frame) (lg : list (name * nat)).
   Hypothesis Hvs : forall v, In v vs -> self_eval v = true.
 
   Let cx := combine [nX; nY; nZ] vs.
@@ -520,18 +539,19 @@ Section PureSubst.
   Proof. intros P; destruct P; reflexivity. Qed.
 
   Lemma pure_subst : forall fuel e, pure e -> names_bound cx fr e ->
-    forall r st', eval fin fm fuel S1 e = (r, st') ->
-    st' = S1 /\ eval fin fm fuel S0 (subst cx e) = (r, S0).
+    forall r st', eval fin fm tx pf fuel S1 e = (r, st') ->
+    st' = S1 /\ eval fin fm tx pf fuel S0 (subst cx e) = (r, S0).
   Proof.
     induction fuel as [|f IH]; intros e P NB r st' H.
     - cbn [eval] in *. inversion H; subst. split; reflexivity.
-    - destruct P as [z|s|c|l|s|o a Pa|o a b' Hd Ha Pa Pb|q a b' Pq Pa Pb].
+    - destruct P as [z|rl|s|c|l|s|o a Pa|o a b' Hd Ha Pa Pb|q a b' Pq Pa Pb].
+      + cbn in H. inversion H; subst. split; reflexivity.
       + cbn in H. inversion H; subst. split; reflexivity.
       + cbn in H. inversion H; subst. split; reflexivity.
       + cbn in H. inversion H; subst. split; reflexivity.
       + cbn in H. inversion H; subst. split; reflexivity.
       + (* TSym *)
-        inversion NB as [| | | |s' Hnf Hb| | |]; subst.
+        inversion NB as [| | | | |s' Hnf Hb| | |]; subst.
         cbn [eval eval_step frames ctx_lookup] in H. unfold S1 in H. cbn [frames ctx_lookup] in H.
         unfold cfull in H. rewrite lookup_frame_set_other in H by exact Hnf.
         cbn [subst]. fold cx in H.
@@ -545,45 +565,45 @@ Section PureSubst.
              rewrite Hb in *. inversion H; subst. split; reflexivity.
       + (* TOp1 *)
         inversion NB; subst. cbn [eval eval_step] in H. cbn [subst eval eval_step].
-        destruct (eval fin fm f S1 a) as [ra s1] eqn:E. apply IH in E; [|assumption|assumption].
+        destruct (eval fin fm tx pf f S1 a) as [ra s1] eqn:E. apply IH in E; [|assumption|assumption].
         destruct E as [-> E]. rewrite E.
         destruct ra; inversion H; subst; split; reflexivity.
       + (* TOp2 *)
         inversion NB; subst. cbn [subst].
-        assert (Hgen : (let (rb, st1) := eval fin fm f S1 b' in
+        assert (Hgen : (let (rb, st1) := eval fin fm tx pf f S1 b' in
                         match rb with
                         | Err k => (Err k, st1)
-                        | Ok vb => let (ra, st2) := eval fin fm f st1 a in
+                        | Ok vb => let (ra, st2) := eval fin fm tx pf f st1 a in
                                    match ra with
                                    | Err k => (Err k, st2)
                                    | Ok va => (apply2 o va vb, st2)
                                    end
                         end) = (r, st') ->
                        st' = S1 /\
-                       (let (rb, st1) := eval fin fm f S0 (subst cx b') in
+                       (let (rb, st1) := eval fin fm tx pf f S0 (subst cx b') in
                         match rb with
                         | Err k => (Err k, st1)
-                        | Ok vb => let (ra, st2) := eval fin fm f st1 (subst cx a) in
+                        | Ok vb => let (ra, st2) := eval fin fm tx pf f st1 (subst cx a) in
                                    match ra with
                                    | Err k => (Err k, st2)
                                    | Ok va => (apply2 o va vb, st2)
                                    end
                         end) = (r, S0)).
         { intros HH.
-          destruct (eval fin fm f S1 b') as [rb s1] eqn:E1. apply IH in E1; [|assumption|assumption].
+          destruct (eval fin fm tx pf f S1 b') as [rb s1] eqn:E1. apply IH in E1; [|assumption|assumption].
           destruct E1 as [-> E1]. rewrite E1.
           destruct rb as [vb|k]; [|inversion HH; subst; split; reflexivity].
-          destruct (eval fin fm f S1 a) as [ra s2] eqn:E2. apply IH in E2; [|assumption|assumption].
+          destruct (eval fin fm tx pf f S1 a) as [ra s2] eqn:E2. apply IH in E2; [|assumption|assumption].
           destruct E2 as [-> E2]. rewrite E2.
           destruct ra; inversion HH; subst; split; reflexivity. }
         destruct o; try contradiction; cbn [eval eval_step] in H |- *; exact (Hgen H).
       + (* TCond *)
         inversion NB; subst. cbn [eval eval_step] in H. cbn [subst eval eval_step].
         unfold callv in *. rewrite (as_call_pure _ Pq) in H. rewrite (as_call_subst _ Pq).
-        destruct (eval fin fm f S1 q) as [rq s1] eqn:E. apply IH in E; [|assumption|assumption].
+        destruct (eval fin fm tx pf f S1 q) as [rq s1] eqn:E. apply IH in E; [|assumption|assumption].
         destruct E as [-> E]. rewrite E.
         destruct rq as [vq|k]; [|inversion H; subst; split; reflexivity].
-        destruct (truthy vq).
+        destruct (truthy tx vq).
         * rewrite (as_call_pure _ Pa) in H. rewrite (as_call_subst _ Pa). apply IH in H; assumption.
         * rewrite (as_call_pure _ Pb) in H. rewrite (as_call_subst _ Pb). apply IH in H; assumption.
   Qed.
@@ -592,37 +612,37 @@ End PureSubst.
 (* T3.subst: a call that enters the pure body b with data arguments vs gives the value of the
    substituted body evaluated in the caller's context, and leaves the caller's context as the
    evaluation of the arguments left it *)
-Lemma enter_is_subst fm fuel st b args vs st1 k :
-  pure b -> eval_args (eval true fm fuel) st (firstn 3 args) = (Some vs, k, st1) ->
+Lemma enter_is_subst fm tx pf fuel st b args vs st1 k :
+  pure b -> eval_args (eval true fm tx pf fuel) st (firstn 3 args) = (Some vs, k, st1) ->
   (forall v, In v vs -> self_eval v = true) ->
   names_bound (combine [nX; nY; nZ] vs) (frames st1) b ->
-  enter true fm fuel st b args = (fst (eval true fm fuel st1 (subst (combine [nX; nY; nZ] vs) b)), st1).
+  enter true fm tx pf fuel st b args = (fst (eval true fm tx pf fuel st1 (subst (combine [nX; nY; nZ] vs) b)), st1).
 Proof.
   intros P EA Hvs NB. unfold enter. rewrite EA.
   destruct st1 as [fr1 lg1]. unfold push. cbn [frames log] in *.
-  destruct (eval true fm fuel (mk_state (frame_set nDotF b (combine [nX; nY; nZ] vs) :: fr1) lg1) b) as [r st2] eqn:E.
+  destruct (eval true fm tx pf fuel (mk_state (frame_set nDotF b (combine [nX; nY; nZ] vs) :: fr1) lg1) b) as [r st2] eqn:E.
   eapply pure_subst in E; eauto. destruct E as [-> E]. rewrite E. unfold pop. cbn [frames log tl fst].
   destruct r; reflexivity.
 Qed.
 
 (* call through @ : g@[v1 v2 ...] with g bound to the function {b} *)
-Lemma at_call fin fm fuel st g c0 b vals n :
+Lemma at_call fin fm tx pf fuel st g c0 b vals n :
   op_rooted b = true -> existsb is_none vals = false -> (n <= length vals)%nat ->
   ctx_lookup g (frames st) = Some (TFn c0 b None n) ->
-  eval fin fm (S (S fuel)) st (TOp2 At (TSym g) (TArr vals)) = enter fin fm fuel st b vals.
+  eval fin fm tx pf (S (S fuel)) st (TOp2 At (TSym g) (TArr vals)) = enter fin fm tx pf fuel st b vals.
 Proof.
   intros Hb Hh Hn Hl.
-  change (eval fin fm (S (S fuel)) st (TOp2 At (TSym g) (TArr vals)))
-    with (eval_step fin fm (eval fin fm (S fuel)) st (TOp2 At (TSym g) (TArr vals))).
+  change (eval fin fm tx pf (S (S fuel)) st (TOp2 At (TSym g) (TArr vals)))
+    with (eval_step fin fm tx pf (eval fin fm tx pf (S fuel)) st (TOp2 At (TSym g) (TArr vals))).
   cbn [eval_step].
-  change (eval fin fm (S fuel) st (TArr vals)) with (Ok (TArr vals), st).
+  change (eval fin fm tx pf (S fuel) st (TArr vals)) with (Ok (TArr vals), st).
   cbn beta iota.
-  assert (Hs : eval fin fm (S fuel) st (TSym g) = (Ok (TFn c0 b None n), st))
+  assert (Hs : eval fin fm tx pf (S fuel) st (TSym g) = (Ok (TFn c0 b None n), st))
     by (cbn [eval eval_step]; rewrite Hl; reflexivity).
   rewrite Hs. cbn [at_args].
-  change (eval fin fm (S fuel) st (TFn true (TFn c0 b None n) (Some vals) 1))
-    with (eval_fn fin fm (eval fin fm fuel) st (TFn true (TFn c0 b None n) (Some vals) 1) (TFn c0 b None n) (Some vals) 1).
-  apply (enter_body fin fm fuel st (TFn true (TFn c0 b None n) (Some vals) 1) b 1 n vals Hb Hh Hn) with (c := true) (ar := Some vals);
+  change (eval fin fm tx pf (S fuel) st (TFn true (TFn c0 b None n) (Some vals) 1))
+    with (eval_fn fin fm pf (eval fin fm tx pf fuel) st (TFn true (TFn c0 b None n) (Some vals) 1) (TFn c0 b None n) (Some vals) 1).
+  apply (enter_body fin fm tx pf fuel st (TFn true (TFn c0 b None n) (Some vals) 1) b 1 n vals Hb Hh Hn) with (c := true) (ar := Some vals);
     [|reflexivity].
   cbn beta iota. unfold resolve3. unfold resolve_fn at 1. cbn [Nat.ltb Nat.leb].
   rewrite !(resolve_fn_op_rooted _ _ _ _ Hb). reflexivity.
